@@ -3,6 +3,7 @@ from .common import *
 from .macros import *
 from . import macros as mac
 
+PER_TARGET = True      # every rule below looks at one target configuration at a time (check.py may fork one worker per target)
 NEEDS_WS = True
 DECIDED = ("R7.1 must-pass-through: on every normal path of the installation entry point that takes a (fake, verifier) pair, when the verifier "
            "carries a counter, that counter is reset (store(0) / swap(0) on the verifier's own counter field) before the first installation "
